@@ -918,9 +918,18 @@ impl<'r, 'a> Th<'r, 'a> {
         }
     }
 
-    fn after_raw_fault(&mut self, _step: &Step, _recs: &[ApiRec]) {
+    fn after_raw_fault(&mut self, step: &Step, _recs: &[ApiRec]) {
         let s = self.st.s();
         let tid = self.st.tid;
+        // a raw-lock panic that unwinds through live guards may poison what they cover
+        if let Step::Acquire(a) = step {
+            let spec = &self.st.r.world.spec;
+            let ids = spec.poison_ids(&spec.targets[a.target], if a.rebuild { None } else { Some(a.target) });
+            let mut m = self.st.r.model.lock().unwrap();
+            for p in ids {
+                m.poison.entry(p).or_default().may = true;
+            }
+        }
         // every lock other than those whose own operation panicked must be free of this thread
         let (leaked, faulted): (Vec<(Lid, bool)>, Vec<Lid>) = {
             let g = s.lock();
@@ -979,7 +988,7 @@ impl<'r, 'a> Th<'r, 'a> {
             self.st.probe(|p| p.fault_probes += 1);
             s.api_begin(ApiKind::NonAcq, false);
             let r = catch_unwind(AssertUnwindSafe(|| probe_try(leaf, key)));
-            s.api_end();
+            let probe_rec = s.api_end();
             match r {
                 Ok(Ok(k)) => {
                     // acquired and released again
@@ -990,8 +999,10 @@ impl<'r, 'a> Th<'r, 'a> {
                 }
                 Ok(Err(k)) => {
                     self.kh.key = Some(k);
-                    if !faulted && !evil_try {
-                        s.report(Clause::RawCollateralKill, format!("lock {} never had a raw operation panic and is free, yet a later try-acquisition failed", lid));
+                    // a refusal without any raw operation means the lock has been killed; a
+                    // refusal after a raw try means somebody held it at that moment (no verdict)
+                    if !faulted && !evil_try && probe_rec.raw_ops == 0 {
+                        s.report(Clause::RawCollateralKill, format!("lock {} never had a raw operation panic, yet a later try-acquisition was refused without even trying the raw lock (it has been killed)", lid));
                     }
                 }
                 Err(_) => {
@@ -1047,10 +1058,18 @@ impl<'r, 'a> Th<'r, 'a> {
         for (i, step) in steps.iter().enumerate() {
             self.st.step = i;
             let depth = s.api_depth();
+            let faults0 = s.faults_fired_by_me();
             let r = catch_unwind(AssertUnwindSafe(|| self.exec(step)));
-            if let Err(p) = r {
-                let recs = s.api_unwind_to(depth);
-                self.after_unwind(step, p, recs);
+            match r {
+                Err(p) => {
+                    let recs = s.api_unwind_to(depth);
+                    self.after_unwind(step, p, recs);
+                }
+                Ok(()) => {
+                    if s.faults_fired_by_me() != faults0 {
+                        s.report(Clause::RawPanicLost, format!("a raw-lock operation panicked during step {} but the panic never reached the caller (the step returned normally)", i));
+                    }
+                }
             }
             self.st.probe(|p| p.steps_done += 1);
             if s.aborted() {
